@@ -5,6 +5,8 @@ package checks
 // They suppress nothing: the generators keep the search away from these inputs by construction.
 
 import (
+	"sync"
+	"sync/atomic"
 	"time"
 
 	nt "github.com/mit-pdos/go-nfsd/nfstypes"
@@ -67,5 +69,67 @@ func probeKF3() {
 	})
 	if !o.Bad() && st == nt.NFS3_OK {
 		St.Known("KF3: MKDIR /a, MKDIR /a/b, RENAME /a -> /a/b/x is accepted: /a and /a/b form a cycle that is no longer reachable from the root")
+	}
+}
+
+// KF4: READDIRPLUS reads each entry's attributes under that entry's lock only, one entry after the other, so one
+// listing can show a later write to one file together with the state before an earlier write to another.
+// Deterministic: the listing is held before it locks the second file while another client writes to the first
+// file and then to the second.
+func probeKF4() {
+	d := NewDisk(3000)
+	d.SetRecord(false)
+	s := StartSrv(d, true, false)
+	defer s.Stop()
+	api := s.API()
+	root := s.RootFH()
+	var fhs [2]nt.Nfs_fh3
+	for i, n := range []string{"f0", "f1"} {
+		c := api.NFSPROC3_CREATE(nt.CREATE3args{Where: nt.Diropargs3{Dir: root, Name: nt.Filename3(n)}})
+		if c.Status != nt.NFS3_OK {
+			return
+		}
+		fhs[i] = c.Resok.Obj.Handle
+	}
+	mon := s.Mon()
+	var gid0 atomic.Uint64
+	var n atomic.Int32
+	reached, release := make(chan struct{}), make(chan struct{})
+	var once sync.Once
+	mon.SetYield(func(point string) {
+		if goid() != gid0.Load() || point != "acquire" {
+			return
+		}
+		// acquisitions of the listing: the root, then f0, then f1
+		if n.Add(1)-1 != 2 {
+			return
+		}
+		once.Do(func() { close(reached) })
+		select {
+		case <-release:
+		case <-time.After(2 * time.Second):
+		}
+	})
+	defer mon.SetYield(nil)
+	sizes := map[string]uint64{}
+	o := Guard(20*time.Second, func() {
+		done := make(chan struct{})
+		go func() {
+			defer close(done)
+			defer once.Do(func() { close(reached) })
+			gid0.Store(goid())
+			r := api.NFSPROC3_READDIRPLUS(nt.READDIRPLUS3args{Dir: root, Dircount: 8192, Maxcount: 8192})
+			for e := r.Resok.Reply.Entries; e != nil; e = e.Nextentry {
+				sizes[string(e.Name)] = uint64(e.Name_attributes.Attributes.Size)
+			}
+		}()
+		<-reached
+		api.NFSPROC3_WRITE(nt.WRITE3args{File: fhs[0], Offset: 0, Count: 110, Stable: nt.FILE_SYNC, Data: patternData(1, 110)})
+		api.NFSPROC3_WRITE(nt.WRITE3args{File: fhs[1], Offset: 0, Count: 11, Stable: nt.FILE_SYNC, Data: patternData(2, 11)})
+		close(release)
+		<-done
+	})
+	if !o.Bad() && !o.Slow && sizes["f0"] == 0 && sizes["f1"] == 11 {
+		St.Known("KF4: READDIRPLUS / held before it locks its second file while another client completes WRITE f0 (110 bytes) and then WRITE f1 (11 bytes): the listing shows f0 with size 0 and f1 with size 11, a state no sequential order of the three requests produces (attributes are read under each entry's own lock, one after the other)")
 	}
 }
